@@ -639,6 +639,97 @@ Proof.
 Qed.
 
 (* ------------------------------------------------------------------------------------------ *)
+(* the executor, with the call instruction as a hypothesis: for relations whose treatment of a call
+   is proved separately (exec_inv below instantiates it with ei_exec_call) *)
+
+Section CallInv.
+  Variable R : ctx -> ctx -> Prop.
+  Hypothesis HF : frame_invariant R.
+  Hypothesis Hcall : forall x text tr_ args out, res_sat R x (exec_call x text tr_ args out).
+
+  Let Rrefl := fi_refl R HF.
+  Let Rtrans := fi_trans R HF.
+
+  Ltac rch :=
+    match goal with
+    | |- R ?x ?x => apply Rrefl
+    | H : R ?x ?y |- R ?x ?y => exact H
+    | |- R ?x (set_scalars ?y _) => apply (Rtrans x y); [rch | apply (fi_set_scalars R HF)]
+    | |- R ?x (set_canons ?y _) => apply (Rtrans x y); [rch | apply (fi_set_canons R HF)]
+    | |- R ?x (set_iterables ?y _) => apply (Rtrans x y); [rch | apply (fi_set_iterables R HF)]
+    | |- R ?x (set_last_error ?y _ _) => apply (Rtrans x y); [rch | apply (fi_set_last_error R HF)]
+    | |- R ?x (set_error ?y _ _) => apply (Rtrans x y); [rch | apply (fi_set_error R HF)]
+    | |- R ?x (set_complete ?y _) => apply (Rtrans x y); [rch | apply (fi_set_complete R HF)]
+    | |- R ?x (set_handler ?y _) => apply (Rtrans x y); [rch | apply (fi_set_handler R HF)]
+    | |- R ?x (set_cids ?y _ _) => apply (Rtrans x y); [rch | apply (fi_set_cids R HF)]
+    | |- R ?x (set_fold_counter ?y _) => apply (Rtrans x y); [rch | apply (fi_set_fold_counter R HF)]
+    | |- R ?x (set_ext ?y _) => apply (Rtrans x y); [rch | apply (fi_set_ext R HF)]
+    | |- R ?x (with_streams ?y _) => apply (Rtrans x y); [rch | apply (fi_set_ext R HF)]
+    | |- R ?x (with_canon_maps ?y _) => apply (Rtrans x y); [rch | apply (fi_set_ext R HF)]
+    | |- R ?x (all_fold_start ?y) => unfold all_fold_start; rch
+    | |- R ?x (all_fold_end ?y) => unfold all_fold_end; rch
+    | |- R ?x (all_next_before ?y) => unfold all_next_before; rch
+    | |- R ?x (all_next_after ?y) => unfold all_next_after; rch
+    | |- R ?x (make_incomplete ?y) => apply (Rtrans x y); [rch | apply (fi_make_incomplete R HF)]
+    | |- R ?x (flush_complete ?y) => apply (Rtrans x y); [rch | apply (fi_flush_complete R HF)]
+    | |- R ?x (call_end ?y _) => apply (Rtrans x y); [rch | apply (fi_call_end R HF)]
+    | |- R ?x (record_cid ?y _ _) => apply (Rtrans x y); [rch | apply (fi_record_cid R HF)]
+    | |- R ?x (maybe_set_prev_state ?y _) => apply (Rtrans x y); [rch | apply (fi_maybe_set_prev_state R HF)]
+    | |- R ?x (ctx_set_errors ?y _ _ _ _) => apply (Rtrans x y); [rch | apply (fi_ctx_set_errors R HF)]
+    | H : R ?z ?y |- R ?x ?y => apply (Rtrans x z); [rch | exact H]
+    end.
+
+  Lemma fi_res_sat_trans x y r : R x y -> res_sat R y r -> res_sat R x r.
+  Proof. intros H. destruct r; ss; auto; intros H2; rch. Qed.
+
+  (* ---------------------------------------------------------------------------------------- *)
+  Variable hook : stream_hook.
+  Hypothesis Hhook : hook_preserves R hook.
+
+  Ltac dm IH :=
+    match goal with
+    | |- context [match exec ?h ?n ?a ?z with _ => _ end] =>
+        let H := fresh "HI" in
+        pose proof (IH a z) as H; destruct (exec h n a z) eqn:?; cbn [res_sat] in H
+    | |- context [match ?d with _ => _ end] =>
+        lazymatch d with
+        | context [match _ with _ => _ end] => fail
+        | _ => lazymatch type of d with
+               | instr => fail        (* never split the sub-instructions *)
+               | _ => destruct d eqn:?
+               end
+        end
+    end.
+
+  (* one arm of [exec]: destruct every scrutinee (posing the induction hypothesis for recursive runs),
+     then close each leaf; independent of the order and the number of the instruction arms *)
+  Ltac arm IH Hh :=
+    try (apply (fi_with_handler R HF); intros ? _);
+    cbn [res_sat lift];
+    repeat (dm IH; cbn [res_sat lift]);
+    repeat match goal with H : (_, _) = (_, _) |- _ => inversion H; clear H; subst end;
+    first
+      [ exact I
+      | discriminate
+      | rch
+      | apply Hcall
+      | apply (fi_exec_fail R HF)
+      | apply (fi_exec_ap R HF)
+      | apply Hh
+      | match goal with H : hook _ _ _ = Some ?r |- res_sat _ _ ?r => apply (Hhook _ IH _ _ _ H) end
+      | eapply fi_res_sat_trans; [| apply IH]; rch ].
+
+  Theorem exec_inv_call : forall fuel i x, res_sat R x (exec hook fuel i x).
+  Proof.
+    induction fuel as [| n IH]; intros i x; [exact I |].
+    assert (Hh : forall i0 x0, res_sat R x0 (match hook (exec hook n) i0 x0 with Some r' => r' | None => XUnsupported "stream" end)).
+    { intros i0 x0. destruct (hook (exec hook n) i0 x0) eqn:E; [| exact I]. apply (Hhook _ IH _ _ _ E). }
+    destruct i; cbn [exec]; try apply (fi_wrap_errors R HF); arm IH Hh.
+  Qed.
+
+End CallInv.
+
+(* ------------------------------------------------------------------------------------------ *)
 (* the call instruction and the executor *)
 
 Section ExecInv.
@@ -780,49 +871,8 @@ Section ExecInv.
   Qed.
 
   (* ---------------------------------------------------------------------------------------- *)
-  Variable hook : stream_hook.
-  Hypothesis Hhook : hook_preserves R hook.
-
-  Ltac dm IH :=
-    match goal with
-    | |- context [match exec ?h ?n ?a ?z with _ => _ end] =>
-        let H := fresh "HI" in
-        pose proof (IH a z) as H; destruct (exec h n a z) eqn:?; cbn [res_sat] in H
-    | |- context [match ?d with _ => _ end] =>
-        lazymatch d with
-        | context [match _ with _ => _ end] => fail
-        | _ => lazymatch type of d with
-               | instr => fail        (* never split the sub-instructions *)
-               | _ => destruct d eqn:?
-               end
-        end
-    end.
-
-  (* one arm of [exec]: destruct every scrutinee (posing the induction hypothesis for recursive runs),
-     then close each leaf; independent of the order and the number of the instruction arms *)
-  Ltac arm IH Hh :=
-    try (apply (fi_with_handler R HF); intros ? _);
-    cbn [res_sat lift];
-    repeat (dm IH; cbn [res_sat lift]);
-    repeat match goal with H : (_, _) = (_, _) |- _ => inversion H; clear H; subst end;
-    first
-      [ exact I
-      | discriminate
-      | rch
-      | apply ei_exec_call
-      | apply (fi_exec_fail R HF)
-      | apply (fi_exec_ap R HF)
-      | apply Hh
-      | match goal with H : hook _ _ _ = Some ?r |- res_sat _ _ ?r => apply (Hhook _ IH _ _ _ H) end
-      | eapply res_sat_trans; [| apply IH]; rch ].
-
-  Theorem exec_inv : forall fuel i x, res_sat R x (exec hook fuel i x).
-  Proof.
-    induction fuel as [| n IH]; intros i x; [exact I |].
-    assert (Hh : forall i0 x0, res_sat R x0 (match hook (exec hook n) i0 x0 with Some r' => r' | None => XUnsupported "stream" end)).
-    { intros i0 x0. destruct (hook (exec hook n) i0 x0) eqn:E; [| exact I]. apply (Hhook _ IH _ _ _ E). }
-    destruct i; cbn [exec]; try apply (fi_wrap_errors R HF); arm IH Hh.
-  Qed.
+  Theorem exec_inv hook : hook_preserves R hook -> forall fuel i x, res_sat R x (exec hook fuel i x).
+  Proof. apply (exec_inv_call R HF ei_exec_call). Qed.
 
 End ExecInv.
 
